@@ -1,5 +1,7 @@
+from .. import smt_units
+
 PROP = {'kani_groups': ['hk_batcher'],
- 'smt': [],
+ 'smt': [smt_units.unit_batcher_arith],
  'technique': 'bounded model checking (Kani/CBMC) of the receiver-side kernels and of one full receiver-loop '
               'iteration (de-asynced exec) from an arbitrary state with symbolic processor outcomes and a symbolic '
               'panic plan; liveness over many iterations follows by the written induction (every iteration '
@@ -7,7 +9,9 @@ PROP = {'kani_groups': ['hk_batcher'],
  'functions': ['Receiver::exec (one loop iteration incl. the whole retry loop and the shutdown return), '
                'Receiver::drop, Sender::drop',
                'Watchers::{push_*, notify_*}, Retry::{new, reset, next}, Delay::{new, reset, next}, '
-               'CatchUnwind::poll, Sender::{when_empty, when_flushed}'],
+               'CatchUnwind::poll, Sender::{when_empty, when_flushed}',
+               'E2 (mir2smt, MIR -> SMT-LIB Int, cvc5 + z3): Delay::{next, reset}, Retry::{reset, next}, Capacity::next over '
+               'their full integer ranges with the Delay::new / Retry::new constants read from the MIR of `bounded`'],
  'bounds': 'receiver iteration: 0..=2 (thorough 3) items, 1 (thorough 0..2) watchers of each kind, retry budget 0/1 '
            '(thorough 2) instead of 10, outcomes {Ok, Err no-retry, Err retry(any remainder)} per attempt, panics at '
            'any guarded call; Retry: any budget, 5 calls after reset; Delay: one step from any state with '
